@@ -145,4 +145,6 @@ def main():
 
 
 if __name__ == "__main__":
-    sys.exit(main())
+    with lib.TreeLock():
+        rc = main()
+    sys.exit(rc)
